@@ -280,6 +280,13 @@ fn items(c: &mut Cur, f: &mut File, until_brace: bool) -> PResult<()> {
                     return c.fail(true, format!("a definition cannot start with `{}`", t.text));
                 }
             }
+            // nor with a word that is not one of the language's declaration keywords / modifiers
+            if let Some(t) = c.peek() {
+                const STARTS: &[&str] = &["package", "import", "object", "class", "trait", "case", "sealed", "final", "abstract", "private", "protected", "implicit", "lazy", "type", "val", "var", "def", "override", "inline", "opaque", "enum", "given", "export", "extension", "open", "transparent", "infix"];
+                if t.kind == crate::lex::TokKind::Ident && !t.backticked && !STARTS.contains(&t.text.as_str()) {
+                    return c.fail(true, format!("a declaration cannot start with the word `{}`", t.text));
+                }
+            }
             return c.fail(false, "unrecognised construct");
         }
     }
